@@ -3,9 +3,9 @@ CONSTANTS
   MaxV = 3
   MaxTurnout = 4
   PevChoices <- Pev_quick
-  AllowZeroFinal = FALSE
   Export = FALSE
   IntTruncation = FALSE
+  MonotoneOnRescaled = FALSE
   MaxDist = 5
 INVARIANT TypeOK
 INVARIANT RegularYieldsRows
